@@ -235,4 +235,4 @@ def check(rec, kind, idx, rng, tier):
         vr, vc = (int(rng.choice([0, H - 1])), int(rng.integers(0, W))) if rng.random() < 0.5 else (int(rng.integers(0, H)), int(rng.choice([0, W - 1])))
     else: vr, vc = int(rng.integers(0, H)), int(rng.integers(0, W))
     obs = float(rng.choice([0, 0, 1, 5, -1, 0.3, 20])); tgt = float(rng.choice([0, 0, 1, 2.5]))
-    _run_case(rec, Z, vr, vc, obs, tgt, cx, cy, bool(rng.random() < 0.5), tk, sample=(idx == 1))
+    _run_case(rec, Z, vr, vc, obs, tgt, cx, cy, bool(rng.random() < 0.5), tk, sample=(len(rec.samples) < 1))
